@@ -240,6 +240,62 @@ def r02f(ctx):
         raise AnalysisError("R02f: no wrapper-index reset found")
 
 
+VAULT_CALLS = {"set_item_in_vault", "insert_item_in_vault", "delete_item_in_vault"}
+
+
+def r02g(ctx):
+    """A wrapper is filed in the index under an item index that is still valid.
+
+    `_indexes[name][k] = wrapper` claims "the k-th item of the scheme is this wrapper".  The vault functions split, merge and renumber the
+    items, so an item index computed *before* such a call names another item afterwards (the new item of a split run sits at k+1, k is the
+    shortened part before it).  Rule: between every definition of the key that reaches an index store and the store itself there is no
+    call of a vault function and no structural edit of the same owner (insert/delete/append/_append/clear on it).
+    """
+    from ..paths import cfg_of, node_of, reaching_defs
+    repo = ctx.repo
+    ctx.rule("R02g", "a wrapper is cached under an item index computed after the last renumbering of the items", floor=6)
+    n = 0
+    for cname in ("Table", "Row"):
+        c = repo.cls(cname)
+        for name, fs in c.methods.items():
+            f = fs[0]
+            stores = [a for a in walk_no_nested(f.node) if isinstance(a, ast.Assign) and len(a.targets) == 1 and isinstance(a.targets[0], ast.Subscript)
+                      and isinstance(a.targets[0].value, ast.Subscript) and isinstance(a.targets[0].value.value, ast.Attribute) and a.targets[0].value.value.attr == "_indexes"]
+            if not stores:
+                continue
+            cfg = cfg_of(f)
+            renumber = [node_of(cfg, x) for x in walk_no_nested(f.node) if isinstance(x, ast.Call) and (
+                call_name(x) in VAULT_CALLS or (call_name(x) in ("insert", "delete", "append", "_append", "clear", "extend") and is_self_attr(x.func)))]
+            renumber = [r for r in renumber if r is not None]
+            byid = {nd.id: nd for nd in cfg.nodes}
+            for st in stores:
+                n += 1
+                key = st.targets[0].slice
+                sn = node_of(cfg, st)
+                bad = None
+                for kn in [x for x in ast.walk(key) if isinstance(x, ast.Name)]:
+                    for d in reaching_defs(cfg, kn.id).get(sn.id, frozenset()):
+                        dn = byid[d]
+                        if dn is cfg.entry:
+                            continue
+                        after_def = cfg.reach_from(dn)
+                        for r in renumber:
+                            if r.id in after_def and r is not dn and sn.id in cfg.reach_from(r) and r is not sn:
+                                # r lies on a path def → r → store; a loop that re-defines the key each turn re-validates it
+                                if cfg.path_avoiding(r, sn, [dn], follow_exc=False) is not None:
+                                    bad = (kn.id, dn, r)
+                ok = bad is None
+                ctx.instance("R02g", f"{f.file}:{f.ident}", f"{norm(st, 50)}: key " + ("computed from the current numbering" if ok else f"`{bad[0]}` predates {norm(bad[2].stmt, 40)}"),
+                             ok=ok, nontrivial=True, line=st.lineno)
+                if not ok:
+                    ctx.report("R02g", f, st, f"{norm(st, 60)} — `{bad[0]}` computed at line {bad[1].stmt.lineno}, items renumbered at line {bad[2].stmt.lineno}",
+                               f"{cname}.{name} files a wrapper in the index under `{bad[0]}`, an item index computed before `{norm(bad[2].stmt, 50)}` renumbered the items: "
+                               f"when that call splits a repeated run, the index now points the earlier part of the run at the new item, and later reads of those positions "
+                               f"are served the wrong row/cell")
+    if n == 0:
+        raise AnalysisError("R02g: no population of a wrapper index found")
+
+
 def run(ctx):
     tom = run_tom(ctx.repo)
     r02ab(ctx, tom)
@@ -247,6 +303,7 @@ def run(ctx):
     r02d(ctx)
     r02e(ctx)
     r02f(ctx)
+    r02g(ctx)
 
 
 from ..selftest import Seed, unparse_seed  # noqa: E402
@@ -255,6 +312,9 @@ _T = "src/odfdo/table.py"
 _R = "src/odfdo/row.py"
 _EC = "src/odfdo/element_cached.py"
 SEEDS = [
+    Seed("set_row caches the written row under the index computed before the vault call", "fault", _T,
+         "            row_back = set_item_in_vault(  # type: ignore\n                y, row, self, _xpath_row_idx, \"_tmap\", clone=clone\n            )\n",
+         "            idx = find_odf_idx(self._tmap, y)\n            row_back = set_item_in_vault(  # type: ignore\n                y, row, self, _xpath_row_idx, \"_tmap\", clone=clone\n            )\n            self._indexes[\"_tmap\"][idx] = row_back\n", "R02g"),
     Seed("rstrip resets both indexes with one chained assignment", "fault", _T,
          '        # raz cache of columns\n        self._indexes["_cmap"] = {}\n        self._compute_table_cache()\n\n    def optimize_width',
          '        self._indexes["_tmap"] = self._indexes["_cmap"] = {}\n        self._compute_table_cache()\n\n    def optimize_width', "R02f"),
